@@ -67,6 +67,15 @@ func recvCorpus() []struct {
 		{0, []rop{dgood(0, []byte("ABC")), {kind: 'C', tail: []rop{dgood(1, []byte("last words"))}}, dgood(2, []byte("late")), rd(64), rd(8)}},
 		{0, []rop{{kind: 'C', tail: []rop{dgood(0, []byte("a")), dgood(1, []byte("bc")), bad(2, "REVG!!!!", "corrupt"), dgood(2, []byte("def"))}}, rd(2), rd(64), rd(8)}},
 		{8, []rop{dgood(0, []byte("ABCDEF")), {kind: 'w', data: []byte("xy")}, {kind: 'C', tail: []rop{dgood(1, []byte("GH")), dgood(2, []byte("I")), dgood(2, []byte("J"))}}, rd(4), rd(64), rd(4)}},
+		// the body of a <data/> element is XML character data: it may be serialised in several pieces
+		// (text, CDATA sections, character references); the payload is ALL of it, in order
+		{0, []rop{dgood(0, nil).segmented([]seg{{'T', "QUJD"}, {'C', "REVG"}}), rd(16)}},
+		{0, []rop{dgood(0, []byte("xyz")), dgood(1, nil).segmented([]seg{{'C', "QUJD"}, {'T', "REVG"}, {'C', "R0hJ"}}), dgood(2, []byte("!")), rd(64)}},
+		{0, []rop{dgood(0, nil).segmented([]seg{{'T', "QU"}, {'C', "JD"}}), dgood(1, nil).segmented([]seg{{'E', "REVG"}}), dgood(2, nil).segmented([]seg{{'T', "R0"}, {'E', "hJ"}, {'C', ""}, {'T', "SktM"}}), rd(64)}},
+		{0, []rop{dgood(0, nil).segmented([]seg{{'C', "QQ"}, {'T', "=="}}), dgood(1, nil).segmented([]seg{{'C', ""}}), dgood(2, nil).segmented([]seg{{'T', "Qg=="}, {'C', ""}}), rd(8)}},
+		{0, []rop{bad(0, "", "corrupt").segmented([]seg{{'T', "Q!JD"}, {'C', "REVG"}}), bad(0, "", "truncated").segmented([]seg{{'T', "QUJD"}, {'C', "RA"}}), bad(0, "", "truncated").segmented([]seg{{'T', "QUJDR"}, {'C', "REVG"}}), dgood(0, nil).segmented([]seg{{'T', "QUJD"}, {'C', "REVG"}}), rd(64)}},
+		{8, []rop{dgood(0, []byte("ABCDEF")), rop{kind: 'd', known: true, seq: 1, cls: "oversize"}.segmented([]seg{{'C', "R0hJ"}, {'T', "SktM"}}), rd(8), dgood(1, nil).segmented([]seg{{'C', "R0hJ"}, {'T', "SktM"}}), rd(8)}},
+		{0, []rop{dgood(0, []byte("ABC")), {kind: 'C', tail: []rop{dgood(1, nil).segmented([]seg{{'T', "bGFzdCB3"}, {'C', "b3Jkcw=="}})}}, rd(64), rd(8)}},
 		// both directions at once on one connection
 		{0, []rop{{kind: 'w', data: []byte("hello")}, dgood(0, []byte("ABC")), {kind: 'w', data: []byte("wo")}, bad(1, "REVG!!!!", "corrupt"), {kind: 'w', data: []byte("rld!")}, dgood(1, []byte("DEF")), rd(16), {kind: 'C'}}},
 		{8, []rop{dgood(0, []byte("ABCDEF")), {kind: 'w', data: []byte("xy")}, {kind: 'c'}, {kind: 'w', data: []byte("late")}, rd(16), rd(4)}},
@@ -157,11 +166,40 @@ func randRecv(rnd *common.Rand) (int, []rop) {
 		}
 	}
 	ops = append(ops, rop{kind: 'r', n: 64})
+	// how the body of a packet is serialised: about one packet in five (good or bad alike) is cut
+	// into pieces at random places
 	for i := range ops {
-		// decided per case by the caller (carrier); message carrier marks every packet
-		_ = i
+		if ops[i].kind == 'd' && rnd.Chance(1, 5) {
+			ops[i] = ops[i].segmented(splitSegs(rnd, ops[i].payload))
+		}
+		for k := range ops[i].tail {
+			if rnd.Chance(1, 5) {
+				t := append([]rop(nil), ops[i].tail...)
+				t[k] = t[k].segmented(splitSegs(rnd, t[k].payload))
+				ops[i].tail = t
+			}
+		}
 	}
 	return maxbuf, ops
+}
+
+// splitSegs cuts a payload text into 1..4 pieces of random kinds (text, CDATA section, character
+// references), now and then with an empty CDATA section in between.
+func splitSegs(rnd *common.Rand, payload string) []seg {
+	var ss []seg
+	rest := payload
+	for n := 1 + rnd.Intn(4); n > 0; n-- {
+		cut := len(rest)
+		if n > 1 {
+			cut = rnd.Intn(len(rest) + 1)
+		}
+		ss = append(ss, seg{"TCCE"[rnd.Intn(4)], rest[:cut]})
+		rest = rest[cut:]
+		if rnd.Chance(1, 6) {
+			ss = append(ss, seg{'C', ""})
+		}
+	}
+	return ss
 }
 
 // setCarrier marks every data packet of a history (also those in flight at a close).
@@ -187,8 +225,8 @@ func parseRecvOps(f string) []rop {
 		case "d":
 			if len(p) == 4 {
 				seq, err := strconv.Atoi(p[2])
-				b, _ := common.UnHex(p[3])
-				o := rop{kind: 'd', known: p[1] == "1", seq: seq, payload: string(b), cls: "replay"}
+				pl, segs := parsePayloadTok(p[3])
+				o := rop{kind: 'd', known: p[1] == "1", seq: seq, payload: pl, segs: segs, cls: "replay"}
 				if strings.HasPrefix(p[2], "x") {
 					a, _ := common.UnHex(p[2][1:])
 					o.attr, o.raw = string(a), true
@@ -323,6 +361,10 @@ func Run(r *common.Run) error {
 				}
 				runWake(r, false)
 				runWake(r, true)
+			case "multi":
+				for _, carrier := range []string{"iq", "message"} {
+					runMulti(r, carrier, parseMultiOps(f[2]), "replay")
+				}
 			case "readers":
 				k, _ := strconv.Atoi(f[2])
 				for _, ev := range []string{"c", "C"} {
@@ -361,7 +403,15 @@ func Run(r *common.Run) error {
 		r.Mark("case duplex-concurrent %d", i)
 		runDuplexConcurrent(r, carrier, r.Pick(20, 60))
 	}
+	for i, carrier := range []string{"iq", "message"} {
+		r.Mark("case table-concurrent %d", i)
+		runTableConcurrent(r, carrier, r.Pick(6, 12))
+	}
 	if r.Race() {
+		for i := 0; i < 4; i++ {
+			r.Mark("case table-concurrent-race %d", i)
+			runTableConcurrent(r, []string{"iq", "message"}[i%2], 8+4*i)
+		}
 		for i := 0; i < 6; i++ {
 			r.Mark("case duplex-concurrent-race %d", i)
 			runDuplexConcurrent(r, []string{"iq", "message"}[i%2], 40+10*i)
@@ -379,6 +429,19 @@ func Run(r *common.Run) error {
 			setCarrier(ops, carrier == "message")
 			runRecv(r, c.maxbuf, carrier, ops, "recv-corpus")
 		}
+	}
+	// several streams on one handler, session ids used again
+	nm := 0
+	for _, c := range multiCorpus() {
+		for _, carrier := range []string{"iq", "message"} {
+			r.Mark("case multi-corpus %d", nm)
+			nm++
+			runMulti(r, carrier, c, "multi-corpus")
+		}
+	}
+	for i := 0; i < r.Pick(150, 2500) && len(r.Failures) < 60 && r.Hist["problem"] < 25; i++ {
+		r.Mark("case multi-random %d", i)
+		runMulti(r, []string{"iq", "message"}[r.Rnd.Intn(2)], randMulti(r.Rnd), "multi-random")
 	}
 	r.Mark("case wake 0")
 	runWake(r, false)
